@@ -86,6 +86,37 @@ func jsonNumbers(v any, out *[]string) {
 	}
 }
 
+// modelTree / jsonTree: the tree of geometry types, e.g. GC(Point,GC(LineString,Point),Point).
+func modelTree(g *ref.G) string {
+	if g.Kind != ref.Collection {
+		k := g.Kind
+		if k == ref.LinearRing {
+			k = ref.LineString
+		}
+		return k.String()
+	}
+	var kids []string
+	for _, k := range g.Kids {
+		kids = append(kids, modelTree(k))
+	}
+	return "GC(" + strings.Join(kids, ",") + ")"
+}
+
+func jsonTree(v any, nums *[]string) string {
+	m, _ := v.(map[string]any)
+	ty, _ := m["type"].(string)
+	if ty != "GeometryCollection" {
+		jsonNumbers(m["coordinates"], nums)
+		return ty
+	}
+	var kids []string
+	gs, _ := m["geometries"].([]any)
+	for _, k := range gs {
+		kids = append(kids, jsonTree(k, nums))
+	}
+	return "GC(" + strings.Join(kids, ",") + ")"
+}
+
 func c18Exec(c *engine.Ctx, cs c18Case) {
 	c.Count("evaluations", 1)
 	g := cs.G
@@ -137,7 +168,12 @@ func c18Exec(c *engine.Ctx, cs c18Case) {
 		if wantKind == ref.LinearRing {
 			wantKind = ref.LineString // WKT has no LINEARRING: the encoder writes a ring as a LINESTRING
 		}
-		if bm == nil || bm.Kind != wantKind || bm.Layout != g.Layout || !sameStructure(bm, g) {
+		if g.Kind == ref.Collection {
+			if bm == nil || modelTree(bm) != modelTree(g) {
+				fail("structure", fmt.Sprintf("output %q parses to another tree of geometries: %s, the geometry is %s", clipStr(s, 200), modelTree(bm), modelTree(g)))
+				return
+			}
+		} else if bm == nil || bm.Kind != wantKind || bm.Layout != g.Layout || !sameStructure(bm, g) {
 			fail("structure", fmt.Sprintf("output %q parses to a different type/structure: %s", clipStr(s, 200), bm))
 			return
 		}
@@ -177,7 +213,14 @@ func c18Exec(c *engine.Ctx, cs c18Case) {
 			return
 		}
 		var toks []string
-		jsonNumbers(doc["coordinates"], &toks)
+		if g.Kind == ref.Collection {
+			if tree := jsonTree(map[string]any(doc), &toks); tree != modelTree(g) {
+				fail("structure", fmt.Sprintf("output %s is the tree %s, the geometry is %s", clipStr(string(data), 200), tree, modelTree(g)))
+				return
+			}
+		} else {
+			jsonNumbers(doc["coordinates"], &toks)
+		}
 		if len(toks) != len(want) {
 			fail("ordinate-count", fmt.Sprintf("%d numbers in %s, geometry has %d ordinates", len(toks), clipStr(string(data), 200), len(want)))
 			return
@@ -188,7 +231,9 @@ func c18Exec(c *engine.Ctx, cs c18Case) {
 				return
 			}
 		}
-		if c18HasEmptyMember(g) {
+		if g.Kind == ref.Collection {
+			// (the tree of types was compared above; the members' own nesting is covered as stand-alone shapes)
+		} else if c18HasEmptyMember(g) {
 			var sb strings.Builder
 			jsonShape(doc["coordinates"], &sb)
 			if ty, _ := doc["type"].(string); ty != g.Kind.String() || sb.String() != modelShape(g) {
@@ -314,6 +359,11 @@ func c18Shapes(l geom.Layout, next func() ref.F) []*ref.G {
 		{Kind: ref.MultiPolygon, Layout: l, C3: [][][]ref.C{{ring()}, {}, {ring(), ring()}}},
 		{Kind: ref.LineString, Layout: l, C1: []ref.C{}},
 		{Kind: ref.Polygon, Layout: l, C2: [][]ref.C{}},
+		// collections, also nested and with an empty nested collection
+		ref.NewCollection(l, &ref.G{Kind: ref.Point, Layout: l, C0: co()}, &ref.G{Kind: ref.LineString, Layout: l, C1: []ref.C{co(), co()}}),
+		ref.NewCollection(l, &ref.G{Kind: ref.Point, Layout: l, C0: co()},
+			ref.NewCollection(l, &ref.G{Kind: ref.LineString, Layout: l, C1: []ref.C{co(), co()}}, &ref.G{Kind: ref.Point, Layout: l, C0: co()}),
+			ref.NewCollection(l), &ref.G{Kind: ref.Point, Layout: l, C0: co()}),
 	}
 }
 
